@@ -352,6 +352,16 @@ SelectFn(t) == t # TempT /\ Select(t)
 SelectPath(t) == t # TempT /\ Select(t)
 InsertPath(t, k) == t # TempT /\ Insert1(t, k, 1)
 
+\* SELECT * FROM CSV_INLINE(',', `t.csv`) : the file itself, read now, as an inline table - not the table the transaction
+\* has loaded: it shows what is committed (whatever the transaction changed and has not committed yet, and whatever
+\* other processes committed since the table was loaded), it loads nothing and it holds nothing afterwards.
+\* (a table created and not yet committed is a placeholder file: not generated)
+SelectInline(t) ==
+  /\ t # TempT /\ t \notin created
+  /\ IF disk[t].absent THEN out' = Err("FileNotExist") /\ ended' = Script
+                       ELSE out' = Val(Show(disk[t])) /\ UNCHANGED ended
+  /\ UNCHANGED <<disk, cache, dirty, created, temp, envn, enc>>
+
 \* ALTER TABLE t SET ENCODING TO SJIS : a table attribute; the table is loaded for update and counts as changed
 \* (it has to be written in the new encoding), its rows stay; setting the value it already has does nothing
 SetEnc(t) ==
@@ -472,6 +482,7 @@ Do(a) ==
        [] a.act = "updateswap" -> UpdateSwap(a.t, a.k)
        [] a.act = "inserth"  -> InsertH(a.t, a.k)
        [] a.act = "selectfn" -> SelectFn(a.t)
+       [] a.act = "selectinline" -> SelectInline(a.t)
        [] a.act = "setenc"   -> SetEnc(a.t)
        [] a.act = "selectpath" -> SelectPath(a.t)
        [] a.act = "insertpath" -> InsertPath(a.t, a.k)
@@ -501,6 +512,7 @@ Actions ==
   \cup {A("updateswap", t, k, 0) : t \in Tables, k \in Keys \cup {0}}
   \cup {A("inserth", t, k, 0) : t \in Tables, k \in Keys}
   \cup {A("selectfn", t, 0, 0) : t \in AllFiles}
+  \cup {A("selectinline", t, 0, 0) : t \in AllFiles}
   \cup {A("setenc", t, 0, 0) : t \in Tables}
   \cup {A("selectpath", t, 0, x) : t \in AllFiles, x \in 1..4}          \* x: the spelling
   \cup {A("insertpath", t, k, x) : t \in AllFiles, k \in Keys, x \in 1..4}
